@@ -23,6 +23,24 @@ if [ $rc -ne 0 ]; then
 fi
 "$here/harness/target/release/verif" check "$id" --tier "$tier"
 rc=$?
+# E2 (thorough tier only): bounded libFuzzer campaigns for the properties over byte strings / histories
+if [ $rc -eq 0 ] && [ "$tier" = "thorough" ] && [ -z "${VERIF_NO_E2:-}" ]; then
+  case "$id" in
+    C05) set -- "recover 400000" ;;
+    C07) set -- "field 250000" ;;
+    C08) set -- "decode 1500000" ;;
+    C09) set -- "decode 1000000" "recover 300000" "ppoprf 150000" "wasm 400000" ;;
+    C10|C11|C14) set -- "server 1200" ;;
+    C15) set -- "ppoprf 200000" ;;
+    *) set -- ;;
+  esac
+  for tr in "$@"; do
+    "$here/fuzz/campaign.sh" "$id" ${tr% *} ${tr#* } 8
+    frc=$?
+    if [ $frc -eq 1 ]; then rc=1; break; fi
+    if [ $frc -eq 2 ] && [ $rc -eq 0 ]; then rc=2; fi
+  done
+fi
 if [ $rc -ge 128 ]; then
   # the process died from a signal: abort / segfault inside the code under test
   j="$here/replays/$id-journal.json"
